@@ -109,9 +109,9 @@ CHECKS = {
     "C15": dict(
         title="Shipped executables, manifests and RPC bindings correspond to the sources",
         level="translation_validation",
-        quick=dict(groups=[E("artifacts", "^TestC15Artifacts$"), E("bindings", "^TestC15Bindings$"), E("order", "^TestC15DeployOrder$"),
+        quick=dict(groups=[E("artifacts", "^TestC15Artifacts$"), E("bindings", "^TestC15Bindings$"), E("decoding", "^TestC15Decoding$"), E("order", "^TestC15DeployOrder$"),
                            G("embedded-behaviour", "^(TestC01Stateful|TestC04Stateful|TestC06Stateful|TestC10Stateful|TestC12Stateful|TestC14Signatures|TestC19Main)$", 40, 4, env=dict(VERIF_EMBEDDED=1), tests=7)]),
-        thorough=dict(groups=[E("artifacts", "^TestC15Artifacts$"), E("bindings", "^TestC15Bindings$"), E("order", "^TestC15DeployOrder$"),
+        thorough=dict(groups=[E("artifacts", "^TestC15Artifacts$"), E("bindings", "^TestC15Bindings$"), E("decoding", "^TestC15Decoding$"), E("order", "^TestC15DeployOrder$"),
                               G("embedded-behaviour", "^(TestC01Stateful|TestC02Stateful|TestC04Stateful|TestC05Stateful|TestC06Stateful|TestC07Stateful|TestC09Stateful|TestC10Stateful|TestC11Stateful|TestC12Stateful|TestC14Roster|TestC14Signatures|TestC17Stateful|TestC19Main|TestC19EmitRandom|TestC20Reputation|TestC20Audit|TestC20NeoFSID|TestC20Config|TestC20Estimations)$", 300, 12, env=dict(VERIF_EMBEDDED=1), tests=20)]),
     ),
     "C16": dict(
